@@ -124,6 +124,8 @@ var misuseTemplates = []struct{ class, src string }{
 	{"arg-type", "fnums('a', 1, 2, 3)"}, {"arg-type", "fnums(1, 2, m, 3)"}, {"arg-type", "join('a', ',')"}, {"arg-type", "join(1, ',')"}, {"arg-type", "includes(m, 'a')"}, {"arg-type", "mapToArr('x', 'k')"},
 	{"arg-type", "ftime(1)"}, {"arg-type", "ftime('x')"}, {"arg-type", "fmap(arr)"}, {"arg-type", "fmap(1)"}, {"arg-type", "fstrs(1)"}, {"arg-type", "fstrs(m)"}, {"arg-type", "sqrt(null)"}, {"arg-type", "date('a', 1, 1)"},
 	{"arg-type", "max(1, 'a')"}, {"arg-type", "fsum(1, 's')"}, {"arg-type", "addDate(1, 1, 1, 1)"}, {"arg-type", "timeFormat('x', 'y')"},
+	{"arg-type", "year(null)"}, {"arg-type", "year(z)"}, {"arg-type", "timeFormat(null, '2006')"}, {"arg-type", "useTimezone(nilp, 'UTC')"}, {"arg-type", "addDate(null, 1, 1, 1)"}, {"arg-type", "hour(undefinedname)"},
+	{"arg-type", "millSecond(m.missing)"}, {"arg-type", "weekDay(nd)"}, {"arg-type", "month(s0)"}, {"arg-type", "day(arr)"}, {"arg-type", "ftime(null)"}, {"arg-type", "ftime(z)"},
 	{"spread-misuse", "abs(arr...)"}, {"spread-misuse", "fsum(1 ...)"}, {"spread-misuse", "fsum(s0...)"}, {"spread-misuse", "fsum(null...)"}, {"spread-misuse", "fcat('a', arr...)"}, {"spread-misuse", "fid(arr...)"},
 	{"invalid-regexp", "regexp('a', '(')"}, {"invalid-regexp", "regexp(s0, '[a')"}, {"invalid-regexp", "regexp('a', '*')"}, {"invalid-regexp", "regexp('a', 'a{2,1}')"}, {"invalid-regexp", "regexp('a', '\\\\')"},
 	{"compare-composite", "arr == arr"}, {"compare-composite", "[1] == [1]"}, {"compare-composite", "m == m"}, {"compare-composite", "m != m"}, {"compare-composite", "arr === arr"}, {"compare-composite", "m !== m"},
